@@ -70,6 +70,16 @@ def cases(tier, seed):
     for tab, ratio, (g, n, T) in itertools.product(["T_ship_gas", "A_kink1e3"], [0.5, 0.99875], [("quadratic", 40, 4.0), ("huge", 6, 0)]):
         out.append({"cls": "single", "table": tab, "p_f": ratio * 8000.0, "p_i": 8000.0, "nx": 10, "grid": g, "n": n, "T": T,
                     "sched": "scalar", "seed": seed, "prior": True})
+    # schedules given as integer arrays / lists of whole psi
+    for tab, sc, form, (g, n, T) in itertools.product(["T_ship_gas", "A_rise"], ["stepdown", "downup"], ["int64", "list"],
+                                                      [("quadratic", 40, 4.0), ("huge", 6, 0)]):
+        out.append({"cls": "single", "table": tab, "p_f": 7000.0, "p_i": 8000.0, "nx": 10, "grid": g, "n": n, "T": T,
+                    "sched": sc, "seed": seed, "sched_int": form})
+    # p_frac/p_initial within 1e-5 and 1e-7 of 1 (inside any default np.isclose band): still a drawdown, still relaxes
+    for tab, eps_r, (g, n, T) in itertools.product(["T_ship_gas", "A_kink1e3"], [1e-5, 1e-7],
+                                                  [("onestep", 2, 0), ("huge", 6, 0), ("geometric", 40, 0)]):
+        out.append({"cls": "single", "table": tab, "p_f": 8000.0 * (1 - eps_r), "p_i": 8000.0, "nx": 10, "grid": g, "n": n, "T": T,
+                    "sched": "scalar", "seed": seed})
     # no drawdown at all: p_frac = p_initial is inside the quantifier (p_frac <= p_initial)
     for tab in ("T_ship_gas", "A_kink1e3"):
         out.append({"cls": "single", "table": tab, "p_f": 8000.0, "p_i": 8000.0, "nx": 10, "grid": "quadratic", "n": 40,
@@ -85,9 +95,14 @@ def evaluate(case):
     p_min = tables.table_range(case["table"])[0] if case["table"] else 0.0
     sched = sim.schedule(case["sched"], n, case["p_f"], case["p_i"], p_min)
     res = sim.make_reservoir(cls, nx, case["p_f"], case["p_i"], case["table"])
+    sched_in = sched
+    if case.get("sched_int") and sched is not None:
+        # whole-psi schedule handed over as an integer array / a list: same physics as the float array of those values
+        sched = np.rint(sched)
+        sched_in = sched.astype(np.int64) if case["sched_int"] == "int64" else [int(v) for v in sched]
     if case.get("prior"):  # the same object has run a scheduled simulation of the same length before: no trace may remain
         sim.simulate(res, t, sim.schedule("stepdown", n, case["p_f"], case["p_i"], p_min))
-    sim.simulate(res, t, sched)
+    sim.simulate(res, t, sched_in)
     u = np.asarray(res.pseudopressure, dtype=float)
     m_f, m_i = sim.frac_values(res, cls, case["p_f"], sched, n)
     tol = TOL_REL * abs(m_i)
@@ -138,7 +153,7 @@ def evaluate(case):
             outcome.append("relaxed-horizon")
             gap = np.max(np.abs(u[-1] - m_f[0]))
             # the rigorous bound on what can be left, plus rounding of the solve (measured gaps 3e-12 .. 2e-14)
-            allowed = max(100 * decay, 1e-9) * (m_i - m_f[0]) + 1e3 * tol
+            allowed = max(100 * decay, 1e-9) * (m_i - m_f[0]) + 10 * tol
             if gap > allowed:
                 viol.append(V("relaxation", f"after a horizon with rigorous decay bound {decay:.2g} the profile "
                               f"is still {gap / (m_i - m_f[0]):.4g} drawdowns from the frac-face value "
